@@ -19,6 +19,22 @@ from jug import TaskGenerator
 LOG = %(log)r
 DUR = %(dur)r
 EDGES = %(edges)r
+CLEANUP_STAGES = %(stages)r      # nested clean-up handlers inside the task function (for repeated stop requests)
+CLEANUP_DUR = %(findur)r
+
+# hard kill at the n-th call of an os primitive of THIS process (C13: a kill inside file_store.dump)
+_k = os.environ.get('JUGV_KILL_AT')
+if _k:
+    _fn, _n = _k.split(':')
+    _cnt = [0]
+    _orig = getattr(os, _fn)
+
+    def _interposed(*a, **kw):
+        _cnt[0] += 1
+        if _cnt[0] == int(_n):
+            os.kill(os.getpid(), 9)
+        return _orig(*a, **kw)
+    setattr(os, _fn, _interposed)
 
 
 def _rec(kind, i):
@@ -29,10 +45,25 @@ def _rec(kind, i):
         os.close(fd)
 
 
+def _body(i, k):
+    """the work of task i inside k nested clean-up handlers: when the work is interrupted each handler (innermost first) writes
+    'F<k>', takes CLEANUP_DUR seconds, writes 'G<k>' and lets the interruption go on"""
+    if k == 0:
+        time.sleep(DUR[i])
+        return
+    try:
+        _body(i, k - 1)
+    except BaseException:
+        _rec('F%%d' %% k, i)
+        time.sleep(CLEANUP_DUR)
+        _rec('G%%d' %% k, i)
+        raise
+
+
 @TaskGenerator
 def node(i, *deps):
     _rec('S', i)
-    time.sleep(DUR[i])
+    _body(i, CLEANUP_STAGES)
     _rec('E', i)
     return ('node', i, list(deps))
 
@@ -68,12 +99,14 @@ def jug_cmd(sub, root, extra=()):
     return [sys.executable, '-c', code, sub, os.path.join(root, 'jf.py'), '--jugdir', os.path.join(root, 'jd'), '--will-cite'] + list(extra)
 
 
-def start_worker(root, nr_wait=4, cycle=1, verbose=False, opts=()):
+def start_worker(root, nr_wait=4, cycle=1, verbose=False, opts=(), env_extra=None):
     extra = ['--nr-wait-cycles', str(nr_wait), '--wait-cycle-time', str(cycle)] + list(opts)
     if verbose:
         extra += ['--verbose', 'info']
     errf = open(os.path.join(root, 'err.%d.%d' % (os.getpid(), int(time.time() * 1e6) % 10 ** 9)), 'w+')
-    p = subprocess.Popen(jug_cmd('execute', root, extra), cwd=root, env=py_env(), stdout=subprocess.DEVNULL, stderr=errf)
+    env = py_env()
+    env.update(env_extra or {})
+    p = subprocess.Popen(jug_cmd('execute', root, extra), cwd=root, env=env, stdout=subprocess.DEVNULL, stderr=errf)
     p.errf = errf
     return p
 
@@ -169,10 +202,13 @@ def one_run(rng, mode, params=None):
     params = dict(params or {})
     defaults = [('shape', lambda: rng.choice(sorted(SHAPES))), ('dur', lambda: rng.choice([0.5, 0.8])), ('nworkers', lambda: rng.choice([1, 2, 2])),
                 ('victim', lambda: rng.randrange(params['nworkers'])),
-                ('when', lambda: rng.choice(['in-function', 'in-function', 'in-wait-loop']) if mode != 'kill' else rng.choice(['in-function', 'random-time', 'random-time'])),
+                ('when', lambda: rng.choice(['in-function', 'in-function', 'in-wait-loop']) if mode != 'kill' else rng.choice(['in-function', 'random-time', 'in-dump', 'in-dump'])),
                 ('delay', lambda: round(rng.uniform(0.0, 1.5), 3)),
                 ('nth', lambda: rng.randrange(3) if params['nworkers'] == 1 else 0),
-                ('opts', lambda: [o for o in ('--no-check-environment', '--keep-going', '--keep-failed', '--aggressive-unload') if rng.random() < 0.35])]
+                ('opts', lambda: [o for o in ('--no-check-environment', '--keep-going', '--keep-failed', '--aggressive-unload') if rng.random() < 0.35]),
+                # repeated stop requests: the later ones arrive while the task function is still unwinding through its own clean-up
+                ('signals', lambda: [mode] + ([rng.choice(['term', 'int']) for _ in range(rng.choice([1, 1, 2]))] if mode != 'kill' and rng.random() < 0.3 else [])),
+                ('kill_at', lambda: '%s:%d' % (('fsync', rng.randint(1, 6)) if rng.random() < 0.6 else ('rename', rng.randint(1, 3))))]
     for k, f in defaults:
         v = f()                 # always drawn, so that presets do not shift the random stream
         params.setdefault(k, v)
@@ -184,6 +220,12 @@ def one_run(rng, mode, params=None):
         n = 3
         params['nworkers'] = 2
         params['victim'] = 1
+    if params['when'] != 'in-function' or mode == 'kill':
+        params['signals'] = [mode]
+    if params['when'] == 'in-dump':
+        params['dur'] = 0.05
+    stages = len(params['signals']) - 1
+    SIGS = {'term': signal.SIGTERM, 'int': signal.SIGINT, 'kill': signal.SIGKILL}
     found = []
     sig = {'term': signal.SIGTERM, 'int': signal.SIGINT, 'kill': signal.SIGKILL}[mode]
     with jugrun.scratch_dir('jugvp') as root:
@@ -191,11 +233,19 @@ def one_run(rng, mode, params=None):
         if params['when'] == 'in-wait-loop':
             dur[0] = 3.0           # the first worker sits inside task 0 while the victim waits
         with open(os.path.join(root, 'jf.py'), 'w') as f:
-            f.write(JUGFILE % {'log': os.path.join(root, 'log'), 'dur': dur, 'edges': edges})
+            f.write(JUGFILE % {'log': os.path.join(root, 'log'), 'dur': dur, 'edges': edges, 'stages': stages, 'findur': 1.0})
         procs = []
         try:
             delivered = False
-            if params['when'] == 'in-wait-loop':
+            if params['when'] == 'in-dump':
+                # the victim kills itself (SIGKILL) at the n-th os.fsync / os.rename it performs, i.e. inside file_store.dump between the
+                # creation of the temporary file and the rename
+                for k in range(params['nworkers']):
+                    procs.append(start_worker(root, opts=params['opts'], env_extra={'JUGV_KILL_AT': params['kill_at']} if k == params['victim'] else None))
+                victim = procs[params['victim']]
+                victim.wait(90)
+                delivered = victim.returncode == -signal.SIGKILL
+            elif params['when'] == 'in-wait-loop':
                 p0 = start_worker(root, opts=params['opts'])
                 procs.append(p0)
                 t_end = time.time() + 30
@@ -234,6 +284,15 @@ def one_run(rng, mode, params=None):
                                 delivered = True
                                 break
                         time.sleep(0.005)
+                    # the later stop requests: each as soon as the function reports that it entered its next clean-up handler
+                    for j in range(1, len(params['signals'])):
+                        t_end = time.time() + 15
+                        while delivered and time.time() < t_end and victim.poll() is None:
+                            if any(k == 'F%d' % j and pid == victim.pid for k, pid, i, ts in read_log(root)):
+                                victim.send_signal(SIGS[params['signals'][j]])
+                                params['sent'] = j + 1
+                                break
+                            time.sleep(0.005)
                 else:
                     time.sleep(params['delay'])
                     if victim.poll() is None:
@@ -264,6 +323,12 @@ def one_run(rng, mode, params=None):
                 else:
                     first_open = [ts for k, pid, i, ts in log1 if k == 'S' and pid == victim.pid and i in vt]
                     valid = bool(vt) and min(first_open) <= t_sig
+                    # a later stop request counts only if it cut the clean-up handler short (no 'G' record of that stage)
+                    for j in range(1, params.get('sent', 1)):
+                        if any(k == 'G%d' % j and pid == victim.pid for k, pid, i, ts in log1):
+                            valid = False
+                    if len(params['signals']) > 1 and params.get('sent', 1) < len(params['signals']):
+                        valid = False
             params['valid_instant'] = valid
             if valid:
                 if mode in ('term', 'int') and delivered:
@@ -336,6 +401,10 @@ def _runs(ck, n, modes, presets=()):
                                            if params.get('delivered') else 'too-late'))
         for o in params['opts']:
             ck.count('process-run:%s:option %s' % (mode, o))
+        if len(params.get('signals', [])) > 1:
+            ck.count('process-run:repeated stop requests %s%s' % ('+'.join(params['signals']), '' if params.get('valid_instant') else ' (not judged)'))
+        if params['when'] == 'in-dump':
+            ck.count('process-run:kill inside dump at %s' % params['kill_at'].split(':')[0])
         if params.get('temp_files_after_signal'):
             ck.count('process-run:%s:temp-files-left' % mode)
         if params.get('locks_after_signal'):
@@ -349,6 +418,8 @@ SIGNAL_PRESETS = (('term', {'when': 'in-function', 'nworkers': 1, 'opts': ['--no
                   ('int', {'when': 'in-function', 'nworkers': 1, 'opts': ['--keep-going', '--keep-failed']}),
                   ('term', {'when': 'in-function', 'nworkers': 1, 'opts': []}),
                   ('int', {'when': 'in-function', 'nworkers': 2, 'victim': 0, 'opts': ['--no-check-environment', '--aggressive-unload']}),
+                  ('term', {'when': 'in-function', 'nworkers': 1, 'opts': [], 'signals': ['term', 'term']}),
+                  ('int', {'when': 'in-function', 'nworkers': 1, 'opts': ['--keep-going'], 'signals': ['int', 'term', 'int']}),
                   ('term', {'when': 'in-wait-loop', 'opts': ['--keep-going']}),
                   ('int', {'when': 'in-wait-loop', 'opts': ['--no-check-environment', '--keep-failed']}),
                   ('term', {'when': 'in-function', 'nworkers': 2, 'opts': ['--keep-failed', '--aggressive-unload']}))
@@ -358,8 +429,15 @@ def signal_runs(ck, n):
     _runs(ck, n, ['term', 'int'], SIGNAL_PRESETS)
 
 
+KILL_PRESETS = (('kill', {'when': 'in-dump', 'kill_at': 'fsync:1', 'nworkers': 1, 'shape': 'chain3'}),
+                ('kill', {'when': 'in-dump', 'kill_at': 'rename:2', 'nworkers': 2, 'victim': 0, 'shape': 'fork'}),
+                ('kill', {'when': 'in-dump', 'kill_at': 'fsync:4', 'nworkers': 1, 'shape': 'join'}),
+                ('kill', {'when': 'in-dump', 'kill_at': 'fsync:1', 'nworkers': 2, 'victim': 1, 'shape': 'indep3'}),
+                ('kill', {'when': 'in-function', 'nworkers': 2}))
+
+
 def kill_runs(ck, n):
-    _runs(ck, n, ['kill'])
+    _runs(ck, n, ['kill'], KILL_PRESETS)
 
 
 def replay(obj):
@@ -374,7 +452,7 @@ def replay(obj):
         if not found:
             print('observed: no violation on this tree')
         return 1 if found else 0
-    params = {k: v for k, v in obj['params'].items() if k in ('shape', 'dur', 'nworkers', 'victim', 'when', 'delay', 'nth', 'opts')}
+    params = {k: v for k, v in obj['params'].items() if k in ('shape', 'dur', 'nworkers', 'victim', 'when', 'delay', 'nth', 'opts', 'signals', 'kill_at')}
     p, found = one_run(random.Random(0), obj['mode'], params)
     print('log:', p.get('log'))
     print('expected (recorded):', obj.get('what'))
